@@ -796,11 +796,15 @@ def concat_from_sequence(node: ir.Node, op, state: OptimizerState) -> ReturnValu
             # Unsqueeze the inputs with concat axis if new_axis is 1
             axis_value = op.Constant(value_int=axis)
             unsqueezed_inputs = []
+            unsqueezed_by_input: dict[ir.Value, ir.Value] = {}
             for node_input in inputs:
-                unsqueezed_input = op.Unsqueeze(
-                    node_input, axis_value, _outputs=[f"{node_input.name}_unsqueeze"]
-                )
-                unsqueezed_inputs.append(unsqueezed_input)
+                # A value may occur several times in the sequence: unsqueeze it once
+                # (a second Unsqueeze would produce a second value with the same name).
+                if node_input not in unsqueezed_by_input:
+                    unsqueezed_by_input[node_input] = op.Unsqueeze(
+                        node_input, axis_value, _outputs=[f"{node_input.name}_unsqueeze"]
+                    )
+                unsqueezed_inputs.append(unsqueezed_by_input[node_input])
             # Send unsqueezed outputs to Concat
             logger.debug(
                 "ConcatFromSequence => Concat %s", [x.name for x in unsqueezed_inputs]
